@@ -63,6 +63,12 @@ theorem C17_props_roundtrip_ascii (m : Entries)
   simp only [Bool.and_eq_true, List.all_eq_true] at this
   exact ⟨⟨fun c hc => Or.inl (this.1 c hc), Or.inl this.1⟩, ⟨fun c hc => Or.inl (this.2 c hc), Or.inl this.2⟩⟩
 
+/-- the character class is exact: every character outside `safeChar` breaks the round trip of
+    the one-entry map `k ↦ c` (the load fails, the write fails, or another text comes back) -/
+theorem C17_props_safe_class_maximal (c : Char) (h : safeChar c = false) :
+    roundTrip [(['k'], [c])] ≠ .ok [(['k'], [c])] :=
+  not_safe_bad c h
+
 /-! ## the recorded finding classes, reproduced by the model -/
 
 /-- C17/latin1-supplement: `é` is written as the windows-1252 byte 0xE9, which is not UTF-8:
